@@ -2,6 +2,7 @@
      dec <tag> <hex of a VP8L payload>   -> "I <r> S <r>", r = "OK w h <fnv1a64 of RGBA bytes>" | "ERR"
                                            (the extracted specification decoder; no separate impl model)
      trace <hex>                         -> "T w h alpha cache meta_bits ngroups t:<type>/<bits>,..." | "ERR"
+     fwd <hex> <rgba hex of the cleaned source>  -> "F 1" | "F 0" | "F ERR"  forward_chain(source) = residual image
      unp <c> <a>                         -> "I <fixed fast path> S <color.NRGBAModel formula>"
      imp <exact 0|1> <a> <r> <g> <b>     -> "I a r g b S a r g b"   clean-up of one imported pixel      *)
 open Zutil
@@ -42,6 +43,23 @@ let () = iter_lines (fun line ->
        Printf.printf "R wf=%d emit=%d OK %d %d %s\n" (if wf then 1 else 0) (if same then 1 else 0)
          (int_of_z sm.Vp8lSpec.i_w) (int_of_z sm.Vp8lSpec.i_h) (fnv_px sm.Vp8lSpec.i_px)
      | _ -> print_endline "R ERR")
+  | ["fwd"; hex; pixhex] ->
+    (* encoder data path vs model: forward transform chain (with the transforms recovered from the
+       stream) applied to the cleaned source pixels must be the residual image the tokens denote *)
+    let bytes = zbytes_of_hex hex in
+    let rec pxs l = match l with
+      | r :: g :: b :: a :: tl -> { Vp8lPixel.pa = z_of_int a; pr = z_of_int r; pg = z_of_int g; pb = z_of_int b } :: pxs tl
+      | _ -> [] in
+    let src = pxs (bytes_of_hex pixhex) in
+    (match Vp8lTrace.trace_decode bytes with
+     | Res.Ok p ->
+       let (ts, cw) = Vp8lEmit.sem_transforms p.Vp8lEmit.p_transforms p.Vp8lEmit.p_w p.Vp8lEmit.p_h in
+       let resid = Vp8lEmit.sem_eimg cw p.Vp8lEmit.p_main in
+       let fwd = Vp8lImport.forward_chain ts src in
+       let same = (Stdlib.List.length resid = Stdlib.List.length fwd) &&
+                  Stdlib.List.for_all2 (fun a b -> Vp8lPixel.px_eqb a b) resid fwd in
+       Printf.printf "F %d\n" (if same then 1 else 0)
+     | _ -> print_endline "F ERR")
   | ["trace"; hex] ->
     (match Vp8lSpec.decode_header (zbytes_of_hex hex) with
      | Res.Ok d ->
